@@ -472,11 +472,11 @@ def _split_top_level_and(cond):
 
 
 def normalize_let_chains(fn):
-    """R4 (generic): `if C1 && let P = E && C2 { B }` (no else) -> nested `if C1 { if let P = E { if C2 { B } } }`"""
+    """R4 (generic): `if C1 && let P = E && C2 { B }` / `if let P = E && C { B }` (no else) -> nested `if C1 { if let P = E { if C2 { B } } }`"""
     n = 0
     pos = 0
     while True:
-        m = re.search(r'\bif\b([^{};]*?&&\s*let\b[^{};]*?)\{', fn.body[pos:])
+        m = re.search(r'\bif\b((?=[^{};]*\blet\b)[^{};]*?&&[^{};]*?)\{', fn.body[pos:])
         if not m:
             break
         start = pos + m.start()
